@@ -1,13 +1,15 @@
-(* TwoWorkers.v — stop mode on a pool of TWO workers, under EVERY schedule (this is the statement
-   the free-running stress of C09 is judged by, Corr/BatchStressCorr.v):
+(* WorkersPrefix.v — stop mode on a pool of ANY number of workers, under EVERY schedule:
 
-     if an item y was executed (a callback was made for it) and an earlier item m was not
-     (no callback: it was skipped), then every OTHER item before y was processed to the end and
-     SUCCEEDED - so the item whose failure raised the stop flag is not before y.
+     if an item y was executed (a callback was made for it), then at most workers - 1 items before
+     y are anything else than processed to the end with SUCCESS.
 
    Why: when y passes its stop-flag check the flag is down, so every item that was finished by
    then succeeded; all items before y have been received (the queue is FIFO); the ones not
-   finished are held by workers other than y's - with two workers, at most one.  That one is m.
+   finished are held by workers other than y's: at most workers - 1.  So an item before y that
+   was skipped, and the item whose failure raised the stop flag if it is before y, are among
+   those workers - 1 items.  With TWO workers (the free-running stress of C09,
+   Corr/BatchStressCorr.v): if y was executed and an earlier item m was skipped, every OTHER item
+   before y succeeded - the failing item is not before y.
 
    The context is assumed not cancelled (a cancelled context produces error slots without
    raising the flag). *)
@@ -15,11 +17,12 @@ From Flyt Require Import Base FlowTable Engine BatchConc EngineFacts BaseFacts I
      BatchConcFacts BatchConcItems BatchConcStop.
 From Coq Require Import Lia.
 
-Section Two.
+Section Prefix.
 Variable o : oracle.
 Variable c : ucfg.
 Variable nd : nid.
 Variable items : list val.
+Variable nworkers : nat.
 Variable qcap : nat.
 Hypothesis Hexec : has_exec c = true.
 
@@ -27,7 +30,7 @@ Notation n := (length items).
 Notation bstep := (bstep o c nd items true qcap).
 Notation brun := (brun o c nd items true qcap).
 Notation task_step := (task_step o c nd items true).
-Notation BInv := (BInv items 2).
+Notation BInv := (BInv items nworkers).
 Notation ItemInv := (ItemInv c nd items).
 Notation il := BatchConcItems.il.
 Notation itm := (BatchConcItems.itm items).
@@ -49,7 +52,43 @@ Definition G (s : bst) : Prop :=
 Definition Q (s : bst) : Prop :=
   cancelled (base s) = false ->
   forall y, passed s y ->
-  forall i i', i < y -> i' < y -> ~ okI s i -> ~ okI s i' -> i = i'.
+  exists l, length l <= nworkers - 1 /\ forall i, i < y -> ~ okI s i -> In i l.
+
+(* the items held by the workers other than worker k *)
+Definition item_of (w : wstate) : list nat := match w with WRun i _ => [i] | _ => [] end.
+Fixpoint others (l : list wstate) (k : nat) : list nat :=
+  match l with
+  | [] => []
+  | w :: t => match k with 0 => flat_map item_of t | S k' => item_of w ++ others t k' end
+  end.
+
+Lemma items_length t : length (flat_map item_of t) <= length t.
+Proof. induction t as [|w t IH]; cbn; [lia|]. rewrite app_length. destruct w; cbn; lia. Qed.
+
+Lemma others_length : forall l k, k < length l -> length (others l k) <= length l - 1.
+Proof.
+  induction l as [|w t IH]; intros k Hk; cbn in *; [lia|].
+  destruct k as [|k]; [pose proof (items_length t); lia|].
+  rewrite app_length. specialize (IH k ltac:(lia)). destruct w; cbn; lia.
+Qed.
+
+Lemma in_items t : forall k i pc, nth_error t k = Some (WRun i pc) -> In i (flat_map item_of t).
+Proof.
+  induction t as [|w t IH]; intros [|k] i pc H; cbn in *; try discriminate.
+  - inv H. cbn. auto.
+  - apply in_or_app. right. eapply IH; eauto.
+Qed.
+
+Lemma in_others : forall l k k1 i pc,
+    nth_error l k1 = Some (WRun i pc) -> k1 <> k -> In i (others l k).
+Proof.
+  induction l as [|w t IH]; intros k k1 i pc H Hne; [destruct k1; discriminate|].
+  destruct k as [|k], k1 as [|k1]; cbn in *.
+  - contradiction.
+  - eapply in_items; eauto.
+  - inv H. cbn. auto.
+  - apply in_or_app. right. eapply IH; eauto.
+Qed.
 
 (* ------------------------------------------------------------ the three kinds of step *)
 Definition neutral (s s' : bst) : Prop :=
@@ -283,11 +322,12 @@ Qed.
 
 Lemma Q_step s t s' : BInv s -> G s -> Q s -> bstep s t = Some s' -> Q s'.
 Proof.
-  intros B Gs Qs H Hc' y Hp i i' Hi Hi' Hn Hn'.
+  intros B Gs Qs H Hc' y Hp.
   pose proof (cancel_back _ _ _ H Hc') as Hc.
-  assert (Hb : ~ okI s i) by (intros X; apply Hn; eapply okI_stable; eauto).
-  assert (Hb' : ~ okI s i') by (intros X; apply Hn'; eapply okI_stable; eauto).
-  assert (Old : passed s y -> i = i') by (intros P; eapply (Qs Hc y P); eauto).
+  assert (Old : passed s y ->
+                exists l, length l <= nworkers - 1 /\ forall i, i < y -> ~ okI s' i -> In i l).
+  { intros P. destruct (Qs Hc y P) as [l [Hl Hin]]. exists l. split; [exact Hl|].
+    intros i Hi Hn. apply Hin; [exact Hi|]. intros X. apply Hn. eapply okI_stable; eauto. }
   destruct (step_kinds _ _ _ H) as [N|[R|T]].
   - destruct N as [Hr [Ei _]]. apply Old. destruct Hp as [Hp|[pc [Hp Hpc]]].
     + left. rewrite <- (il_same _ _ _ Ei). exact Hp.
@@ -315,13 +355,13 @@ Proof.
           - exfalso. apply RA in Hp. destruct Hp as [Hw'|[Hx _]]; [|contradiction].
             rewrite Hw in Hw'. inv Hw'. contradiction. }
         (* flag down: the new case *)
+        exists (others (ws s) k). split.
+        { pose proof (nth_error_lt _ _ _ Hk) as L. pose proof (others_length (ws s) k L) as OL.
+          rewrite (I_ws _ _ _ B) in OL. exact OL. }
+        intros i Hi Hn.
+        assert (Hb : ~ okI s i) by (intros X; apply Hn; eapply okI_stable; eauto).
         destruct (okI_dec_run s i B Gs Hf Hc ltac:(lia) Hb) as [p1 [k1 H1]].
-        destruct (okI_dec_run s i' B Gs Hf Hc ltac:(lia) Hb') as [p2 [k2 H2]].
-        pose proof (nth_error_lt _ _ _ Hk) as L. pose proof (nth_error_lt _ _ _ H1) as L1.
-        pose proof (nth_error_lt _ _ _ H2) as L2. rewrite (I_ws _ _ _ B) in L, L1, L2.
-        assert (k1 <> k) by (intros ->; rewrite Hk in H1; inv H1; lia).
-        assert (k2 <> k) by (intros ->; rewrite Hk in H2; inv H2; lia).
-        assert (k1 = k2) by lia. subst k2. rewrite H1 in H2. inv H2. reflexivity.
+        eapply in_others; [exact H1|]. intros ->. rewrite Hk in H1. inv H1. lia.
       * apply Old. right. exists PCtx. split; [exists k; exact Hk|split; discriminate].
       * apply Old. right. eexists. split; [exists k; exact Hk|split; discriminate].
       * apply Old. right. eexists. split; [exists k; exact Hk|split; discriminate].
@@ -358,15 +398,15 @@ Proof.
   - eapply Q_step; eauto.
 Qed.
 
-Lemma init_no_running s0 i pc : ~ running (binit items 2 s0) i pc.
+Lemma init_no_running s0 i pc : ~ running (binit items nworkers s0) i pc.
 Proof. intros [k H]. unfold binit in H. cbn [ws] in H. apply nth_error_In in H. apply repeat_spec in H. discriminate. Qed.
 
-Lemma G_init s0 : G (binit items 2 s0).
+Lemma G_init s0 : G (binit items nworkers s0).
 Proof.
   intros _ _ i [Hr|[Hd _]]; [exfalso; eapply init_no_running; eauto|cbn in Hd; lia].
 Qed.
 
-Lemma Q_init s0 : Q (binit items 2 s0).
+Lemma Q_init s0 : Q (binit items nworkers s0).
 Proof.
   intros _ y [Hp|[pc [Hr _]]].
   - exfalso. apply Hp. unfold il. cbn. apply nth_repeat_nil.
@@ -388,22 +428,47 @@ Proof.
   destruct (lt_dec i (deq s)) as [L|L]; [left; split; [split|]; assumption|right; intros [[X _] _]; contradiction].
 Qed.
 
-(* the statement *)
-Lemma two_workers_lemma s0 sched :
-  let s := brun (binit items 2 s0) sched in
+(* the statement, for any number of workers *)
+Lemma workers_prefix_lemma s0 sched :
+  let s := brun (binit items nworkers s0) sched in
   cancelled (base s) = false ->
-  forall m y, m < y -> il s m = [] -> il s y <> [] ->
-  forall i, i < y -> i <> m ->
-    (i < deq s /\ (forall pc, ~ running s i pc)) /\
-    exists x, ist_result c (irun c nd (item_at items i) (il s i)) = Some (inl x).
+  forall y, il s y <> [] ->
+  exists l, length l <= nworkers - 1 /\
+    forall i, i < y -> ~ In i l ->
+      (i < deq s /\ (forall pc, ~ running s i pc)) /\
+      exists x, ist_result c (irun c nd (item_at items i) (il s i)) = Some (inl x).
 Proof.
-  intros s Hc m y Hmy Hm Hy i Hi Him.
-  destruct (run_GQ sched (binit items 2 s0) (binit_inv items 2 s0) (binit_items c nd items 2 s0)
-                   (G_init s0) (Q_init s0)) as [B [Gs Qs]].
+  intros s Hc y Hy.
+  destruct (run_GQ sched (binit items nworkers s0) (binit_inv items nworkers s0)
+                   (binit_items c nd items nworkers s0) (G_init s0) (Q_init s0)) as [B [Gs Qs]].
   fold s in B, Gs, Qs.
-  destruct (okI_dec s i) as [[F S]|Hn]; [split; [exact F|exact S]|].
-  exfalso. apply Him. apply (Qs Hc y (or_introl Hy) i m Hi Hmy Hn).
-  intros [_ S]. rewrite Hm in S. exact (succ_nil m S).
+  destruct (Qs Hc y (or_introl Hy)) as [l [Hl Hin]]. exists l. split; [exact Hl|].
+  intros i Hi Hni. destruct (okI_dec s i) as [[F S]|Hn]; [split; [exact F|exact S]|].
+  exfalso. apply Hni. apply Hin; assumption.
 Qed.
 
-End Two.
+End Prefix.
+
+(* two workers: the list has at most one element; a skipped item m before y is in it, so every other
+   item before y succeeded *)
+Lemma two_workers_lemma (o : oracle) c nd (items : list val) qcap :
+  has_exec c = true ->
+  forall s0 sched,
+  let s := brun o c nd items true qcap (binit items 2 s0) sched in
+  cancelled (base s) = false ->
+  forall m y, m < y -> BatchConcItems.il s m = [] -> BatchConcItems.il s y <> [] ->
+  forall i, i < y -> i <> m ->
+    (i < deq s /\ (forall pc, ~ running s i pc)) /\
+    exists x, ist_result c (irun c nd (item_at items i) (BatchConcItems.il s i)) = Some (inl x).
+Proof.
+  intros Hexec s0 sched s Hc m y Hmy Hm Hy i Hi Him.
+  destruct (workers_prefix_lemma o c nd items 2 qcap Hexec s0 sched Hc y Hy) as [l [Hl Hin]].
+  fold s in Hin.
+  assert (Hml : In m l).
+  { destruct (in_dec Nat.eq_dec m l) as [X|X]; [exact X|exfalso].
+    destruct (Hin m Hmy X) as [_ [x Hx]]. rewrite Hm in Hx.
+    apply (succ_nil c nd items m). exists x. exact Hx. }
+  apply Hin; [exact Hi|]. intros Hil.
+  destruct l as [|a [|b l]]; cbn in Hl; [contradiction| |lia].
+  destruct Hml as [<-|[]]. destruct Hil as [<-|[]]. contradiction.
+Qed.
